@@ -11,7 +11,7 @@ def _stability(uname, seed):
     """re-verify with halved rlimit and three seeds; a proof that flips is unstable"""
     tpl = os.path.join(driver.CONTRACTS, uname.lower() + ".vx.rs")
     unit = gen.expand(tpl, driver.REPO)
-    unit.gen_path = os.path.join(driver.BUILD, uname.lower() + "_stab.rs")
+    unit.gen_path = os.path.join(driver.BUILD, uname.lower() + "_stab_%d.rs" % os.getpid())
     with open(unit.gen_path, "w") as f:
         f.write(unit.text())
     runs = []
@@ -21,12 +21,16 @@ def _stability(uname, seed):
         s = verus.summarize(r)
         runs.append({"seed": seed + i + 1, "rlimit": half, "ok": s["ok"], "verified": s["verified"], "errors": s["errors"],
                      "smt_ms": s["smt_ms"]})
+    try:
+        os.remove(unit.gen_path)
+    except OSError:
+        pass
     return runs
 
 
-def _mutant(idx, m):
+def _mutant(idx, m, tag=""):
     """apply one find/replace to a scratch copy of the file and verify the unit against it"""
-    root = os.path.join(driver.BUILD, "selftest", "m%d" % idx)
+    root = os.path.join(driver.BUILD, "selftest", "%s_m%d_%d" % (tag, idx, os.getpid()))
     shutil.rmtree(root, ignore_errors=True)
     # scratch tree = symlinks to the real files except the mutated one
     src = os.path.join(driver.REPO, m["file"])
@@ -53,7 +57,7 @@ def _mutant(idx, m):
     except gen.GenError as e:
         shutil.rmtree(root, ignore_errors=True)
         return {"mutant": idx, "status": "undecided", "detail": "extraction: " + str(e)[:200]}
-    unit.gen_path = os.path.join(driver.BUILD, "selftest_m%d.rs" % idx)
+    unit.gen_path = os.path.join(driver.BUILD, "selftest_%s_m%d.rs" % (tag.lower(), idx))
     with open(unit.gen_path, "w") as f:
         f.write(unit.text())
     r = verus.run_verus(unit.gen_path, ["--multiple-errors", "5", "--rlimit", str(unit.rlimit)])
@@ -99,7 +103,7 @@ def run(pid, cfg, results, seed):
             mine.append((i, mm))
     with cf.ThreadPoolExecutor(max_workers=8) as ex:
         stab = {u: ex.submit(_stability, u, seed) for u in units}
-        mres = [ex.submit(_mutant, i, m) for (i, m) in mine]
+        mres = [ex.submit(_mutant, i, m, pid) for (i, m) in mine]
         for u, fu in stab.items():
             runs = fu.result()
             info["stability"][u.upper()] = runs
